@@ -847,6 +847,12 @@ func (ps *PathSim) execCall(fn *ssa.Function, st *pstate, ci ssa.CallInstruction
 			s = &Sym{K: sNewErr, V: val, T: val.Type()}
 		} else if b, ok := com.Value.(*ssa.Builtin); ok && b.Name() == "len" && len(ev.Args) == 1 {
 			s = &Sym{K: sLen, A: ev.Args[0], T: val.Type(), V: val}
+			if mk, _ := calleeOfSym(ev.Args[0]); isReflectMethod(mk, "MapKeys") {
+				// MapKeys returns one key per entry: its length is the map's Len()
+				if ma := symArgs(st, ev.Args[0]); len(ma) == 1 {
+					s = &Sym{K: sRLen, A: ma[0], T: val.Type(), V: val}
+				}
+			}
 			if n, ok := staticLen(com.Args[0].Type(), ev.Args[0]); ok {
 				s = &Sym{K: sConst, C: constant.MakeInt64(n), T: val.Type()}
 			}
@@ -948,6 +954,20 @@ func reflectModel(st *pstate, ev *Event, val *ssa.Call) *Sym {
 		return nil
 	}
 	a := ev.Args[0]
+	if name == "Next" && namedIs(recvT, "reflect", "MapIter") || (name == "Next" && ev.Callee != nil && strings.Contains(ev.Callee.String(), "MapIter")) {
+		// the iterator of m.MapRange() yields exactly m.Len() entries: the k-th Next is true iff k-1 < Len()
+		if mr, _ := calleeOfSym(a); isReflectMethod(mr, "MapRange") {
+			if ma := symArgs(st, a); len(ma) == 1 {
+				k := int64(0)
+				for _, pe := range st.events {
+					if pe.Instr != nil && pe.Callee == ev.Callee && len(pe.Args) > 0 && pe.Args[0].Key() == a.Key() {
+						k++
+					}
+				}
+				return &Sym{K: sCmp, Op: token.LSS, A: &Sym{K: sConst, C: constant.MakeInt64(k)}, B: &Sym{K: sRLen, A: ma[0]}, T: val.Type(), V: val}
+			}
+		}
+	}
 	switch {
 	case isReflectValue(recvT):
 		switch name {
@@ -1041,6 +1061,27 @@ func evalBool(st *pstate, b *Sym) (bool, bool) {
 		}
 		if v, ok := st.facts[b.Key()]; ok {
 			return v, true
+		}
+		// c < R for a constant c: false for every c at or above one known not to be below R, true for every c at or below one
+		// known to be below R
+		if b.Op == token.LSS && b.A.K == sConst && b.A.C != nil && b.A.C.Kind() == constant.Int {
+			c, _ := constant.Int64Val(b.A.C)
+			suffix := "," + b.B.Key() + ")"
+			for k, v := range st.facts {
+				if !strings.HasPrefix(k, "cmp(<,const(") || !strings.HasSuffix(k, suffix) {
+					continue
+				}
+				var j int64
+				if _, err := fmt.Sscanf(k, "cmp(<,const(%d),", &j); err != nil || k != fmt.Sprintf("cmp(<,const(%d)%s", j, suffix) {
+					continue
+				}
+				if !v && j <= c {
+					return false, true
+				}
+				if v && j >= c {
+					return true, true
+				}
+			}
 		}
 		// the same ordering fact recorded in another spelling: a<b ≡ !(a>=b) ≡ b>a ≡ !(b<=a), through widening integer conversions
 		if b.Op != token.EQL && b.Op != token.NEQ {
@@ -1396,9 +1437,12 @@ func (ps *PathSim) walk(fn *ssa.Function, b *ssa.BasicBlock, start int, pred *ss
 				c := ps.sym(st, x.Cond)
 				if v, ok := evalBool(st, c); ok {
 					nb := b.Succs[1]
+					tf := "F"
 					if v {
 						nb = b.Succs[0]
+						tf = "T"
 					}
+					st.trail = append(st.trail, fmt.Sprintf("%s.b%d:%s", fn.Name(), b.Index, tf)) // decided by the facts of the path
 					pred, b = b, nb
 					goto next
 				}
